@@ -299,6 +299,9 @@ fn run_shard(
             .stderr(Stdio::null())
             .status();
         let confirmed = matches!(&solo, Ok(s) if s.signal().is_some() || s.code() == Some(1));
+        if confirmed {
+            minimise_died(bin, &path);
+        }
         if !confirmed {
             outcome.inconclusive.push(format!(
                 "shard {shard} ({profile}): worker died ({how}) but the case passes when re-run alone: {}",
@@ -659,4 +662,58 @@ fn emit_corpus(target: &str, dir: &Path, count: usize) -> i32 {
     }
     println!("{n} corpus files written to {}", dir.display());
     0
+}
+
+/// Delta-debugging of a crash case: shrinks the byte string of the case (input bytes / source
+/// data) while a solo replay in a child process still dies. proptest cannot shrink these because
+/// the failure kills the process.
+fn minimise_died(bin: &Path, path: &Path) {
+    let Ok(rf) = engine::read_replay(path) else { return };
+    let pointers = ["/input/bytes", "/data", "/bytes"];
+    let Some(ptr) = pointers.iter().find(|p| rf.case.pointer(p).and_then(|v| v.as_str()).is_some()) else {
+        return;
+    };
+    let hex = rf.case.pointer(ptr).unwrap().as_str().unwrap().to_string();
+    let Some(mut bytes) = engine::hexbytes::from_hex(&hex) else { return };
+    let tmp = path.with_extension("min.json");
+    let mut dies = |candidate: &[u8]| -> bool {
+        let mut rf2 = rf.clone();
+        *rf2.case.pointer_mut(ptr).unwrap() = Value::String(engine::hexbytes::to_hex(candidate));
+        if fs::write(&tmp, serde_json::to_string(&rf2).unwrap()).is_err() {
+            return false;
+        }
+        matches!(
+            Command::new(bin).arg("replay-inner").arg(&tmp).stdout(Stdio::null()).stderr(Stdio::null()).status(),
+            Ok(s) if s.signal().is_some()
+        )
+    };
+    let mut tries = 0;
+    let mut chunk = (bytes.len() / 2).max(1);
+    while chunk >= 1 && tries < 400 && !bytes.is_empty() {
+        let mut i = 0;
+        let mut removed_any = false;
+        while i < bytes.len() && tries < 400 {
+            let end = (i + chunk).min(bytes.len());
+            let mut cand = bytes[..i].to_vec();
+            cand.extend_from_slice(&bytes[end..]);
+            tries += 1;
+            if dies(&cand) {
+                bytes = cand;
+                removed_any = true;
+            } else {
+                i = end;
+            }
+        }
+        if !removed_any {
+            if chunk == 1 {
+                break;
+            }
+            chunk /= 2;
+        }
+    }
+    let _ = fs::remove_file(&tmp);
+    let mut rf2 = rf.clone();
+    *rf2.case.pointer_mut(ptr).unwrap() = Value::String(engine::hexbytes::to_hex(&bytes));
+    rf2.detail = format!("{} (input minimised by delta debugging, {} replays)", rf2.detail, tries);
+    let _ = fs::write(path, serde_json::to_string_pretty(&rf2).unwrap());
 }
